@@ -1,44 +1,66 @@
+//! Correspondence harness: runs the real rrss code on a case file, one result line per case.
+//! Case line:  (<suite> <id> <op> <args...>)      Result line:  <id>\t<result>
+mod sx;
+mod unicode;
+mod valsuite;
+mod ext;
+
+use std::io::{BufRead, Write};
+use sx::Sx;
+
+pub const SIZE_BUDGET: u64 = 1048576;
+
+fn run_case(line: &str) -> String {
+    let sx = match sx::parse(line) {
+        Ok(s) => s,
+        Err(e) => return format!("?\tharness-error {}", e),
+    };
+    let items = match sx.list() {
+        Ok(l) if l.len() >= 3 => l,
+        _ => return "?\tharness-error bad-case-line".into(),
+    };
+    let suite = items[0].atom().unwrap_or("?").to_string();
+    let id = items[1].atom().unwrap_or("?").to_string();
+    let op = items[2].atom().unwrap_or("?").to_string();
+    let args: Vec<Sx> = items[3..].to_vec();
+    let r = std::panic::catch_unwind(move || -> Result<String, String> {
+        match suite.as_str() {
+            "val" => valsuite::run_val(&op, &args),
+            "f64" => valsuite::run_f64(&op, &args),
+            "uni" => unicode::run_uni(&op, &args),
+            _ => ext::run(&suite, &op, &args),
+        }
+    });
+    let text = match r {
+        Ok(Ok(t)) => t,
+        Ok(Err(e)) => format!("harness-error {}", e),
+        Err(_) => "panic".to_string(),
+    };
+    format!("{}\t{}", id, text)
+}
+
 fn main() {
     let args: Vec<String> = std::env::args().collect();
     match args.get(1).map(|s| s.as_str()) {
-        Some("unicode-dump") => unicode_dump(),
-        _ => { eprintln!("usage"); std::process::exit(2) }
-    }
-}
-
-fn ranges(pred: impl Fn(char) -> bool) -> Vec<(u32, u32)> {
-    let mut out = Vec::new();
-    let mut cur: Option<(u32, u32)> = None;
-    for cp in 0u32..0x110000 {
-        let ok = char::from_u32(cp).map_or(false, |c| pred(c));
-        match (ok, cur) {
-            (true, None) => cur = Some((cp, cp)),
-            (true, Some((lo, _))) => cur = Some((lo, cp)),
-            (false, Some(r)) => { out.push(r); cur = None }
-            (false, None) => {}
-        }
-    }
-    if let Some(r) = cur { out.push(r) }
-    out
-}
-
-fn unicode_dump() {
-    let p = |name: &str, rs: Vec<(u32, u32)>| {
-        println!("{} {}", name, rs.iter().map(|(a, b)| format!("{}-{}", a, b)).collect::<Vec<_>>().join(","));
-    };
-    p("alphabetic", ranges(|c| c.is_alphabetic()));
-    p("numeric", ranges(|c| c.is_numeric()));
-    p("whitespace", ranges(|c| c.is_whitespace()));
-    p("uppercase", ranges(|c| c.is_uppercase()));
-    p("lowercase", ranges(|c| c.is_lowercase()));
-    let mut lower = Vec::new();
-    for cp in 0u32..0x110000 {
-        if let Some(c) = char::from_u32(cp) {
-            let l: Vec<u32> = c.to_lowercase().map(|x| x as u32).collect();
-            if l != vec![cp] {
-                lower.push(format!("{}:{}", cp, l.iter().map(|x| x.to_string()).collect::<Vec<_>>().join("+")));
+        Some("unicode-dump") => unicode::unicode_dump(),
+        Some("run") => {
+            std::panic::set_hook(Box::new(|_| {}));
+            let input = std::fs::File::open(&args[2]).expect("case file");
+            let mut out: Box<dyn Write> = match args.get(3) {
+                Some(p) => Box::new(std::io::BufWriter::new(std::fs::File::create(p).expect("out file"))),
+                None => Box::new(std::io::stdout()),
+            };
+            for line in std::io::BufReader::new(input).lines() {
+                let line = line.expect("read");
+                if line.starts_with('(') {
+                    writeln!(out, "{}", run_case(&line)).unwrap();
+                }
             }
+            out.flush().unwrap();
+        }
+        _ => {
+            eprintln!("usage: harness run <cases> [<out>] | unicode-dump");
+            std::process::exit(2)
         }
     }
-    println!("tolower {}", lower.join(","));
 }
